@@ -108,6 +108,23 @@ static void run_case_t(const json& c) {
     // 1 KiB, so that after 4 (and again after 8) stored members less than 10 KiB are free and ItemStash's automatic
     // garbage collection (threshold lowered by OSMIUM_VERIF_STASH_GC_MIN) runs inside add_item() in the middle of
     // a scenario - the place where offsets/handles can go stale.
+    // "wide" cases: member number wide_idx of relation wide_rel is listed wide_k times in a row (same type, ref and
+    // want flag).  RelMgr.tla counts and stores member-list ENTRIES, so the scenario is a behaviour of the
+    // specification with a longer member list; callbacks, pending count and held objects are those of the exported
+    // scenario, the probe of the completion callback has the entry repeated.  This takes the countdown of a relation
+    // across 2^8 and 2^16, which TLC's member lists of <= 4 entries cannot.
+    const int64_t wide_rel = c.contains("wide") ? c["wide"]["rel"].get<int64_t>() : 0;
+    const std::size_t wide_idx = c.contains("wide") ? c["wide"]["idx"].get<std::size_t>() : 0;
+    const std::size_t wide_k = c.contains("wide") ? c["wide"]["k"].get<std::size_t>() : 1;
+    auto widen = [&](int64_t id, const json& list) {
+        if (!c.contains("wide") || id != wide_rel) return list;
+        json out = json::array();
+        for (std::size_t i = 0; i < list.size(); ++i) {
+            const std::size_t reps = i == wide_idx ? wide_k : 1;
+            for (std::size_t j = 0; j < reps; ++j) out.push_back(list[i]);
+        }
+        return out;
+    };
     const bool big = c.value("big", false);
     const std::size_t target = 1024UL * 1024UL / 4 - 1024;
     auto pad_tags = [&](osmium::builder::TagListBuilder& tl, std::size_t base_size) {
@@ -133,7 +150,8 @@ static void run_case_t(const json& c) {
         const std::string a = st["a"];
         sh.events = json::array();
         if (a == "relation") {
-            const json& x = st["x"];
+            json x = st["x"];
+            x["members"] = widen(x["id"].get<int64_t>(), x["members"]);
             sh.interest = x["interest"];
             sh.want.clear();
             for (const auto& m : x["members"]) {
@@ -182,7 +200,11 @@ static void run_case_t(const json& c) {
         } else {
             throw vh::Mismatch(k, "known action", a);
         }
-        const json want_ev = sorted_events(st["ev"]);
+        json exp_ev = st["ev"];
+        for (auto& e : exp_ev) {
+            if (e["e"] == "complete") e["probe"] = widen(e["id"].get<int64_t>(), e["probe"]);
+        }
+        const json want_ev = sorted_events(exp_ev);
         const json got_ev = sorted_events(sh.events);
         if (want_ev != got_ev) throw vh::Mismatch(k, want_ev, got_ev, "callbacks of " + a + " " + st["x"].dump());
         VH_EXPECT(k, st["nrel"].get<std::size_t>(), mgr.relations_database().count_relations(), "relations still pending after " + a);
